@@ -351,14 +351,17 @@ func opAlphabet(rp rpc, ids []string, foreign []string) []storeOp {
 	return ops
 }
 
-var dispenseUnits = []string{"", "l", "kg"}
+var dispenseUnits = []string{"", "l", "kg", "m3", "none"}
 
 // payloads: the payload variants the records behind rp can carry (scenario.Payload); 0 = nothing but the key.
 func payloads(rp rpc) []int {
-	if rp.Name == "vending.ListInventory" {
-		return []int{0, 1, 2, 3}
+	switch {
+	case rp.Name == "vending.ListInventory":
+		return []int{0, 1, 2, 3, richPayload}
+	case rp.Variant == "waste":
+		return []int{0}
 	}
-	return []int{0}
+	return []int{0, richPayload}
 }
 
 // genPayload draws a payload variant for a scenario on rp.
